@@ -263,7 +263,7 @@ def run_case(i, script=None, info=None):
             return out
         if res.rc in (97, 98):
             raise core.HarnessError("rtdrv harness error: " + res.err[-500:])
-        if info.get("eintr") and res.sig == 6 and "failed to write" in res.err:
+        if info.get("eintr") and res.sig == 6 and res.err.strip():
             out["aborted_on_fault"] = 1      # terminated with a diagnostic: allowed, nothing to compare
             return out
         if res.rc != 0 or "RTDRV-DONE" not in res.out:
